@@ -611,9 +611,11 @@ fn history_types() -> Vec<Ty> {
     let mk = |dt: DataType, nullable: bool| Ty { name: format!("{dt}"), family: "multi".into(), dt, nullable, core: true };
     vec![
         mk(Int32, true),
-        mk(Utf8, true),
+        mk(Utf8View, true),
         mk(list(Int32, true), true),
         mk(strukt(vec![("a", Int32, true), ("l", list(Utf8, true), true)]), true),
+        mk(Utf8, true),
+        mk(BinaryView, true),
         mk(dict(Int8, Utf8), true),
         mk(ree(Int32, Int32), true),
         mk(Float64, false),
@@ -732,13 +734,21 @@ fn nth_val(dt: &DataType, k: u64) -> Val {
         Utf8 | LargeUtf8 | Utf8View => {
             if k % 7 == 6 {
                 Val::Str(format!("s{k}-{}", "x".repeat((k % 20) as usize)))
+            } else if k % 7 == 3 {
+                Val::Str(format!("{:012}", k % 1_000_000_000_000)) // exactly 12 bytes: longest inline view
+            } else if k % 7 == 5 {
+                Val::Str(format!("{:013}", k % 1_000_000_000_000)) // 13 bytes: shortest out-of-line view
             } else {
                 Val::Str(format!("s{k}"))
             }
         }
         Binary | LargeBinary | BinaryView => {
             let b = k.to_le_bytes();
-            Val::Bytes(b[..(1 + (k % 8) as usize)].to_vec())
+            match k % 7 {
+                3 => Val::Bytes([&b[..], &b[..4]].concat()),       // 12 bytes
+                5 => Val::Bytes([&b[..], &b[..5]].concat()),       // 13 bytes
+                _ => Val::Bytes(b[..(1 + (k % 8) as usize)].to_vec()),
+            }
         }
         FixedSizeBinary(n) => Val::Bytes((0..*n as u64).map(|j| (k >> (8 * (j % 8))) as u8).collect()),
         List(f) | LargeList(f) | ListView(f) | LargeListView(f) => Val::List((0..k % 4).map(|j| nth_val(f.data_type(), k + j)).collect()),
@@ -798,7 +808,7 @@ fn long_col(t: &Ty, len: usize, p: Pat) -> Option<Vec<Val>> {
 }
 
 /// indices into long_types() used by the quick tier
-const LONG_QUICK: [usize; 15] = [0, 1, 2, 3, 4, 6, 7, 9, 11, 13, 14, 15, 17, 18, 20];
+const LONG_QUICK: [usize; 16] = [0, 1, 2, 3, 4, 6, 7, 9, 11, 12, 13, 14, 15, 17, 18, 20];
 
 fn long_types() -> Vec<Ty> {
     use DataType::*;
@@ -903,6 +913,7 @@ pub fn run(ctx: &Ctx) -> ! {
     let want = |s: &str| only.as_deref().map(|o| o == s).unwrap_or(true);
     let mut st = Stats::new();
     let quick = ctx.quick();
+    let mut sub_times: Vec<(&str, f64)> = vec![];
 
     let dims = all_dims();
     let c0 = exactly(0, &dims);
@@ -933,7 +944,8 @@ pub fn run(ctx: &Ctx) -> ! {
             eval(&case, i as u64, &mut st);
         }
     }
-    let (cap01, cap2, cap3, cap_tree, nmax) = if quick { (160u64, 21u64, 0u64, 450u64, 4usize) } else { (1600, 85, 21, 4000, 5) };
+    let (cap01, cap2, cap3, cap_tree, nmax) = if quick { (260u64, 21u64, 0u64, 450u64, 4usize) } else { (1600, 85, 21, 4000, 5) };
+    sub_times.push(("values", ctx.start.elapsed().as_secs_f64()));
     if want("values") {
         let mut blocks = vec![];
         for (i, t) in tys.iter().enumerate() {
@@ -962,6 +974,7 @@ pub fn run(ctx: &Ctx) -> ! {
         st.extra.insert("values_bounds_per_type".into(), json!(type_report));
     }
     // ---------------- trees: full one-level tree alphabets of the nested types at <= 1 deviation
+    sub_times.push(("trees", ctx.start.elapsed().as_secs_f64()));
     if want("trees") {
         let mut blocks = vec![];
         let mut rep = vec![];
@@ -990,12 +1003,13 @@ pub fn run(ctx: &Ctx) -> ! {
     }
 
     // ---------------- histories
+    sub_times.push(("history", ctx.start.elapsed().as_secs_f64()));
     if want("history") {
         // quick: 4 columns and 9 dimensions; thorough: 7 columns and 14 dimensions (a 7-column, 5-row-group
         // case read with batch size 1 costs ~4 ms)
         let htys: Vec<Ty> = if quick { history_types().into_iter().take(4).collect() } else { history_types() };
         let hdims: Vec<usize> = if quick {
-            vec![D_VERSION, D_DICT, D_PAGE_SIZE, D_PAGE_ROWS, D_WBS, D_RG_ROWS, D_RG_BYTES, D_CDC, D_LAYOUT]
+            vec![D_VERSION, D_DICT, D_DICT_LIMIT, D_PAGE_SIZE, D_PAGE_ROWS, D_WBS, D_RG_ROWS, D_RG_BYTES, D_CDC, D_LAYOUT]
         } else {
             vec![D_VERSION, D_DICT, D_DICT_LIMIT, D_PAGE_SIZE, D_PAGE_ROWS, D_WBS, D_RG_ROWS, D_RG_BYTES, D_COMPRESSION, D_STATS, D_CDC, D_LAYOUT, D_BLOOM, D_OFFIDX]
         };
@@ -1066,6 +1080,7 @@ pub fn run(ctx: &Ctx) -> ! {
     }
 
     // ---------------- long structured columns
+    sub_times.push(("long", ctx.start.elapsed().as_secs_f64()));
     if want("long") {
         let ltys: Vec<Ty> = long_types().into_iter().enumerate().filter(|(i, _)| !quick || LONG_QUICK.contains(i)).map(|(_, t)| t).collect();
         let lens: Vec<usize> = if quick { vec![7, 8, 9, 127, 128, 129, 1023, 1024, 1025] } else { vec![7, 8, 9, 15, 16, 17, 31, 32, 33, 63, 64, 65, 127, 128, 129, 255, 256, 257, 511, 512, 513, 1023, 1024, 1025, 2047, 2048, 2049] };
@@ -1140,6 +1155,7 @@ pub fn run(ctx: &Ctx) -> ! {
     }
 
     // ---------------- nested long families: long child runs below list / map / struct parents
+    sub_times.push(("nestlong", ctx.start.elapsed().as_secs_f64()));
     if want("nestlong") {
         use DataType::*;
         // (container kind, leaf): kinds 0 List, 1 LargeList, 2 ListView, 3 FixedSizeList<_,1>, 4 Map, 5 Struct with null rows, 6 List<Struct>
@@ -1282,6 +1298,7 @@ pub fn run(ctx: &Ctx) -> ! {
     }
 
     // ---------------- parallel column writers
+    sub_times.push(("parallel", ctx.start.elapsed().as_secs_f64()));
     if want("parallel") {
         let schemas = parallel_schemas();
         let pdims: Vec<usize> = if quick { vec![D_VERSION, D_DICT, D_DICT_LIMIT, D_BLOOM, D_STATS, D_PAGE_ROWS, D_WBS, D_NDV, D_PAGE_SIZE, D_LAYOUT] } else { vec![D_VERSION, D_DICT, D_DICT_LIMIT, D_COMPRESSION, D_BLOOM, D_STATS, D_PAGE_ROWS, D_WBS, D_NDV, D_PAGE_SIZE, D_LAYOUT] };
@@ -1412,6 +1429,8 @@ pub fn run(ctx: &Ctx) -> ! {
         }));
     }
 
+    sub_times.push(("end", ctx.start.elapsed().as_secs_f64()));
+    st.extra.insert("sub_engine_start_s".into(), json!(sub_times.iter().map(|(n, t)| json!([n, (t * 10.0).round() / 10.0])).collect::<Vec<_>>()));
     st.states = st.traces;
     vcore::finish(
         ctx,
